@@ -63,15 +63,16 @@ def _leaves(x):
         yield numpy.asarray(x)
 
 
-def empty_result(inp):
-    """numpy's result on the plain arrays contains a size-0 array (such inputs are routed to the size0 check)."""
+def classify(inp):
+    """'reject': numpy itself refuses the arguments (input dropped); 'empty': numpy's result is or contains a size-0
+    array (routed to the size0 check); 'ok' otherwise."""
     try:
         with warnings.catch_warnings(), numpy.errstate(all="ignore"):
             warnings.simplefilter("ignore")
             want = getattr(numpy, inp["fn"])(*[_arg(a, False) for a in inp["args"]], **_kw(inp.get("kwargs", {})))
     except Exception:
-        return False
-    return any(v.size == 0 for v in _leaves(want))
+        return "reject"
+    return "empty" if any(v.size == 0 for v in _leaves(want)) else "ok"
 
 
 def _arg(a, as_poly):
@@ -177,7 +178,7 @@ def gen_extreme(tier, rng):
 
 
 def gen_arg(tier, rng):
-    for _ in range(count(tier, 2, 8)):
+    for _ in range(count(tier, 2, 20)):
         yield from _reduce_inputs(["argmax", "argmin"], SHAPES, rng, keepdims=False, tuples=False)
     for fn in ("argmax", "argmin"):     # explicit ties
         for vals in ([3, 1, 3, 0], [0, 1, 0, 1], [2, 2, 2], [[1, 5], [5, 1]], [1.5, -0.5, 1.5, -0.5]):
@@ -203,7 +204,7 @@ family("count_nonzero_nonzero", gen_count, ["count_nonzero", "nonzero"], BOUNDS 
 
 
 # ------------------------------------------------------------------ element-wise binary families
-def _binary(fns, rng, tier, dts=("int64", "float64"), second=None, n=(1, 4)):
+def _binary(fns, rng, tier, dts=("int64", "float64"), second=None, n=(1, 12)):
     for fn in fns:
         if not mirrored(fn):
             continue
@@ -226,12 +227,12 @@ NONZERO = {"int64": [-3, -2, -1, 1, 2, 2, 3], "float64": [-2.5, -1.5, -0.5, 0.5,
 
 
 def gen_divide(tier, rng):
-    yield from _binary(["floor_divide", "true_divide", "divide", "remainder", "mod", "divmod"], rng, tier, second=NONZERO, n=(2, 6))
+    yield from _binary(["floor_divide", "true_divide", "divide", "remainder", "mod", "divmod"], rng, tier, second=NONZERO, n=(2, 12))
 
 
 def gen_close(tier, rng):
     for s1, s2 in PAIRS:
-        for _ in range(count(tier, 2, 8)):
+        for _ in range(count(tier, 2, 30)):
             a = A(rng, s1, "float64")
             b = A(rng, s2, "float64", poly=rng.random() < 0.6, pool=FLOATS + [0.5 + 1e-9, 0.5 + 1e-6, 1.5 + 1e-3, 1e-9, -1e-7])
             kw = rng.choice([{}, {"rtol": 1e-3}, {"atol": 1e-6}, {"rtol": 0.0, "atol": 0.0}, {"rtol": 1e-10, "atol": 1e-2}])
@@ -382,7 +383,7 @@ SHAPE_FNS = ["reshape", "transpose", "moveaxis", "expand_dims", "atleast_1d", "a
 
 
 def gen_shape(tier, rng):
-    items = (i for i in _shape_inputs(rng, SHAPES + [(2, 2), (3, 3), (4, 2)]) if mirrored(i["fn"]) and not empty_result(i))
+    items = (i for i in _shape_inputs(rng, SHAPES + [(2, 2), (3, 3), (4, 2)]) if mirrored(i["fn"]) and classify(i) == "ok")
     yield from thin(tier, rng, items, 0.25)
 
 
@@ -432,7 +433,7 @@ MISC = ["absolute", "negative", "positive", "square", "isfinite", "zeros_like", 
 
 
 def gen_misc_mirrored(tier, rng):
-    return (i for i in gen_misc(tier, rng) if mirrored(i["fn"]) and not empty_result(i))
+    return (i for i in gen_misc(tier, rng) if mirrored(i["fn"]) and classify(i) == "ok")
 
 
 family("other_mirrored", gen_misc_mirrored, MISC,
@@ -465,7 +466,7 @@ def gen_size0(tier, rng):
     yield {"fn": "concatenate", "args": [{"seq": [A(rng, (2,), "int64"), {"array": [], "dtype": "int64", "poly": True}]}], "kwargs": {}}
     # non-empty arguments whose numpy result is (or contains) an empty array
     routed = itertools.chain(_shape_inputs(rng, [(1,), (3,), (1, 1), (2, 3), (2, 1, 3)]), gen_misc("quick", rng))
-    yield from thin(tier, rng, (i for i in routed if mirrored(i["fn"]) and empty_result(i)), 0.5)
+    yield from thin(tier, rng, (i for i in routed if mirrored(i["fn"]) and classify(i) == "empty"), 0.5)
 
 
 family("size0", gen_size0, ["polynomial", "sum", "prod", "any", "all", "equal", "less", "reshape", "concatenate"],
